@@ -18,7 +18,11 @@ i ≥ 1 calls `wait(action)` `gens` times.
     }
 
 Ghost state: per thread `arrived` (number of `counts_[current]++` executed) and
-`left` (number of completed wait calls); `actions` (number of lambda calls).
+`left` (number of completed wait calls); `begun` / `actions` (number of lambda calls begun / ended).
+
+The action is a multi-step action: it begins (`actB`) in the arrival step of the last arriver, takes
+`actYields` scheduling points (`act j`, the mutex is held throughout) and ends (`actE`) before
+`cv_.notify_all()`.
 -/
 import TlxVerif.Model.C10Sched
 namespace TlxVerif.C11.BarM
@@ -30,6 +34,7 @@ inductive Pc
   | lock                     -- unique_lock lock(mutex_)
   | cvwait (cur : Nat)       -- cv_.wait(lock), local `current = cur`
   | waiting (cur : Nat)      -- woken (or spuriously), re-acquire
+  | act (j : Nat)            -- inside lambda(): `j` more scheduling points of the action to go (mutex held)
   | notify                   -- cv_.notify_all() by the last arriver
   | unlock                   -- ~unique_lock, wait() returns
   deriving DecidableEq, Repr, Inhabited
@@ -50,11 +55,15 @@ structure State where
   ws : List Nat := []
   spawned : Nat := 0
   thr : List Thread
+  /-- scheduling points inside the action -/
+  actYields : Nat := 0
+  /-- ghost: actions begun / actions ended -/
+  begun : Nat := 0
   actions : Nat := 0
   deriving Repr
 
-def init (n gens : Nat) : State :=
-  { n := n, gens := gens, thr := { pc := .start } :: List.replicate n { pc := .start } }
+def init (n gens : Nat) (actYields : Nat := 0) : State :=
+  { n := n, gens := gens, actYields := actYields, thr := { pc := .start } :: List.replicate n { pc := .start } }
 
 def count (s : State) (i : Nat) : Nat := if i = 0 then s.c0 else s.c1
 def setCount (s : State) (i v : Nat) : State :=
@@ -86,6 +95,12 @@ def spurCand (s : State) (t : Nat) : Bool :=
 def unfinished (s : State) (t : Nat) : Bool :=
   t < s.thr.length && t ≤ s.spawned && pcOf s t != .finished
 
+/-- where the last arriver goes when the action begins: without scheduling points inside, the action also ends
+    in the same step -/
+def beginPc (s : State) : Pc := if s.actYields = 0 then .notify else .act s.actYields
+def beginEnded (s : State) : Nat := if s.actYields = 0 then s.actions + 1 else s.actions
+def beginEvs (s : State) (t : Nat) : List String := if s.actYields = 0 then [ev t s!"actE{s.actions}"] else []
+
 def out (s : State) (evs : List String) : Option (StepOut State) := some { st := s, evs := evs }
 
 def step (s : State) (t : Nat) (_c : Nat) : Option (StepOut State) :=
@@ -115,9 +130,11 @@ def step (s : State) (t : Nat) (_c : Nat) : Option (StepOut State) :=
       else
         -- last thread has reached the barrier: step_ = step_ ? 0 : 1; counts_[step_] = 0; lambda();
         let st' := other s.step
-        let s1 := setCount (setCount { s with owner := some t, step := st', actions := s.actions + 1 } cur cnt) st' 0
-        out (upd s1 t fun th => { th with pc := .notify, arrived := th.arrived + 1 })
-            [ev t "lock(m)", ev t s!"act{s.actions}"]
+        -- the action begins; without scheduling points inside it also ends in this step
+        let s1 := setCount (setCount { s with owner := some t, step := st', begun := s.begun + 1,
+                                              actions := beginEnded s } cur cnt) st' 0
+        out (upd s1 t fun th => { th with pc := beginPc s, arrived := th.arrived + 1 })
+            ([ev t "lock(m)", ev t s!"actB{s.begun}"] ++ beginEvs s t)
     else none
   | .cvwait cur => out (setPc { s with owner := none, ws := s.ws ++ [t] } t (.waiting cur)) [ev t "wait(cv)"]
   | .waiting cur =>
@@ -127,6 +144,9 @@ def step (s : State) (t : Nat) (_c : Nat) : Option (StepOut State) :=
       some { st := setPc s1 t (if count s cur < s.n then .cvwait cur else .unlock),
              evs := [ev t (if sp then "wake!(cv)" else "wake(cv)")], spurious := sp }
     else none
+  | .act j =>
+    if j ≤ 1 then out (setPc { s with actions := s.actions + 1 } t .notify) [ev t "yield", ev t s!"actE{s.actions}"]
+    else out (setPc s t (.act (j - 1))) [ev t "yield"]
   | .notify => out (setPc { s with ws := [] } t .unlock) [ev t s!"nall(cv)#{s.ws.length}"]
   | .unlock =>
     let nxt : Pc := if th.left + 1 < s.gens then .lock else .finished
